@@ -21,11 +21,25 @@ func genC02(tier string, seed uint64, emit func(string)) {
 	// payload sizes around the buffer sizes an implementation may use internally (512, 1 KiB, 4 KiB, 8 KiB, 64 KiB):
 	// a large bulk string - alone, inside an array, in the middle of a pipeline - with values behind it in the same read
 	sizes := []int{511, 512, 513, 1023, 1024, 1025, 4093, 4094, 4095, 4096, 4097, 5000, 8191, 8192, 8193, 16384, 65535, 65536, 70000}
+	// powers of two up to the 1 MiB bound with small offsets (a buffer that starts at 2^k + c and doubles has its
+	// critical sizes there); fewer offsets in the quick tier
+	offs := []int{-2, -1, 0, 1, 2, 3, 4}
+	if tier == "thorough" {
+		offs = []int{-9, -8, -7, -6, -5, -4, -3, -2, -1, 0, 1, 2, 3, 4, 5, 6, 7, 8, 9}
+	}
+	firstPow := len(sizes)
+	for k := 15; k <= 19; k++ {
+		for _, c := range offs {
+			sizes = append(sizes, 1<<k+c)
+		}
+	}
 	big := len(sizes)
 	if tier != "thorough" {
 		big = len(sizes) // all sizes in both tiers: they are cheap (one whole + a few dozen splits each)
 	}
+	eofToo := false
 	for i := 0; i < streams+big; i++ {
+		eofToo = i%3 == 0 || i >= streams
 		nvals := 1 + r.Intn(8)
 		var vals []*Node
 		var b []byte
@@ -54,10 +68,25 @@ func genC02(tier string, seed uint64, emit func(string)) {
 			vt = append(vt, v.String())
 		}
 		head := fmt.Sprintf("chunks %d %s |", nvals, strings.Join(vt, " "))
-		emitSegs := func(segs [][]byte) { emit(segsCase(head, segs)) }
+		emitSegs := func(segs [][]byte) {
+			emit(segsCase(head, segs))
+			// the same segmentation with the last segment delivered together with io.EOF (a reader may do that)
+			if eofToo {
+				emit(segsCase("chunkse"+head[len("chunks"):], segs))
+			}
+		}
 		emitSegs([][]byte{b})
 		if i < streams || len(b) <= 20000 {
 			emitSegs(oneByteSegs(b))
+		}
+		if i >= streams+firstPow {
+			// the large power-of-two sizes: a few splits around the end of the large value only
+			for k := 0; k < 3; k++ {
+				c := 1 + r.Intn(len(b)-1)
+				emitSegs([][]byte{b[:c], b[c:]})
+			}
+			emitSegs(partition(r, b, 2+r.Intn(6)))
+			continue
 		}
 		// every 2-way split point (exhaustive for streams up to 300 bytes, sampled beyond)
 		if len(b) <= 300 || tier == "thorough" && len(b) <= 3000 {
@@ -93,7 +122,7 @@ func runC02(toks []string) Result {
 	}
 	segs := hexSegs(toks[bar+1:])
 	segTag := describeSegs(segs)
-	obs, vals, end := streamOutcome(segs, 1<<20)
+	obs, vals, end := streamOutcomeR(&segReader{segs: segs, dataEOF: toks[0] == "chunkse"}, 1<<20)
 	oracle := "ok"
 	switch {
 	case end != "eof":
